@@ -46,8 +46,13 @@ FALSY_LINES = ["n=0 s= typed", "n=0 s=x typed", "n=7 s= typed", "k= v=0",
                "k=ab v=0", "k= v=3", "n=00 s= typed"]
 
 
+TYPED = {'A': ["n=1 s=a typed", "n=2 s=b typed", "n=3 s=c typed"],
+         'B': ["g=1 flt", "g=2.0 flt", "g=3 flt", "g=1.0 flt"]}
+
+
 def gen_lines(seed, vol, with_seq, falsy=False, distinct=False,
-              badutf8=False, open_tail=False, orphan_head=False):
+              badutf8=False, open_tail=False, orphan_head=False,
+              typed=None, marks=False):
     """ deterministic file content with exactly `vol` results.  Line kinds:
     'N W match' (simple A), 'N W beta match' (simple A and B), filler, if
     with_seq sections 'N begin' / 'N body W' / 'N end', and if falsy lines
@@ -62,6 +67,14 @@ def gen_lines(seed, vol, with_seq, falsy=False, distinct=False,
     rng = random.Random(seed)
     out = []
     n = 0
+    if marks:
+        # every result of this file comes from a definition that stores no
+        # values (store_result_contents=False): only tags reach the store
+        for i in range(vol):
+            out.append(f"mark {i}")
+            if rng.random() < 0.3:
+                out.append("filler line without any result")
+        n = vol
     while n < vol:
         k = rng.random()
         num = rng.randrange(50)
@@ -70,7 +83,12 @@ def gen_lines(seed, vol, with_seq, falsy=False, distinct=False,
             w = f"tok{seed % 997}_{len(out)}"
         if badutf8 and (n == 0 or rng.random() < 0.1):
             w = "caf\udce9" + w[:3]
-        if falsy and (n == 0 or rng.random() < 0.25):
+        if typed and (n == 0 or rng.random() < 0.25):
+            # values that compare EQUAL across files but differ in type:
+            # int 1 (file kind A, int-typed field) / float 1.0 (kind B)
+            out.append(TYPED[typed][rng.randrange(len(TYPED[typed]))])
+            n += 1
+        elif falsy and (n == 0 or rng.random() < 0.25):
             out.append(FALSY_LINES[rng.randrange(len(FALSY_LINES))])
             n += 1
         elif with_seq and k < 0.08 and vol - n >= 5:
@@ -112,6 +130,17 @@ def write_files(d, recipe):
     paths = []
     for i, f in enumerate(recipe['files']):
         p = os.path.join(d, f"f{i:03d}.txt")
+        if 'alias_of' in f:
+            # a second catalog path for the same file: a symlink, or the
+            # same path spelled with a doubled separator
+            tgt = paths[f['alias_of']]
+            if f.get('alias_kind') == 'spelling':
+                p = os.path.join(d + '/', os.path.basename(tgt))
+                p = d + '//' + os.path.basename(tgt)
+            else:
+                os.symlink(os.path.basename(tgt), p)
+            paths.append(p)
+            continue
         with open(p, 'w', encoding='utf-8',
                   errors='surrogateescape') as fh:
             if f['vol'] != 'E':
@@ -120,7 +149,8 @@ def write_files(d, recipe):
                                   f.get('distinct', False),
                                   f.get('badutf8', False),
                                   f.get('open_tail', False),
-                                  f.get('orphan_head', False))
+                                  f.get('orphan_head', False),
+                                  f.get('typed'), f.get('marks', False))
                 fh.write("\n".join(lines) + "\n")
         paths.append(p)
     return paths
@@ -131,6 +161,9 @@ def make_defs():
     return [SearchDef(r'^n=(\d+) s=(\S*) typed', tag='F',
                       field_info=ResultFieldInfo({'n': int, 's': str})),
             SearchDef(r'^k=(\w*) v=(\d+)', tag='K'),
+            SearchDef(r'^mark ', tag='M', store_result_contents=False),
+            SearchDef(r'^g=(\S+) flt', tag='G',
+                      field_info=ResultFieldInfo({'x': float})),
             SearchDef(r'^(\d+) (\S+) .*match$', tag='A'),
             SearchDef(r'^(\d+) (\S+) beta match', tag='B', hint='beta'),
             SequenceSearchDef(start=SearchDef(r'^(\d+) begin'),
@@ -249,6 +282,8 @@ def child_main(recipe_path, out_path):
                                        if v == 0 or v == ''),
                    'distinct_values': len({json.dumps(v) for x in sq
                                            for v in x[3]}),
+                   'float_values': sum(1 for x in sq for v in x[3]
+                                       if isinstance(v, float)),
                    'replaced_bytes': sum(
                        1 for x in sq for v in x[3] if isinstance(v, str)
                        and ('\ufffd' in v or '\\xe9' in v
@@ -259,9 +294,10 @@ def child_main(recipe_path, out_path):
                    'read_errors_seq': sum(
                        1 for x in sq for v in x[2] + x[3] + x[4]
                        if isinstance(v, dict))}
-            if par is not None and pp != sq:
+            if par is not None and digest(pp) != digest(sq):
                 k = 0
-                while k < min(len(pp), len(sq)) and pp[k] == sq[k]:
+                while k < min(len(pp), len(sq)) and \
+                        json.dumps(pp[k]) == json.dumps(sq[k]):
                     k += 1
                 ent['first_diff'] = {
                     'index': k,
@@ -401,6 +437,53 @@ def recipes(chk):
         for m in (0, 3, 16):
             out.append(hist(m, [rng.choice([9, 11, 1000])]
                             + rnd(rng.randrange(1, 12), small + [1000])))
+    # (the cases below draw from their own generator, so that what follows
+    # them sees the same chk.rng stream whether or not they exist)
+    import random as _random
+    rng0 = rng
+    rng = _random.Random(chk.seed * 1000003 + 4)
+    # one worker (max_parallel_tasks 0 / 1): every file is searched by the
+    # same process; files alternate between int-typed and float-typed
+    # captures of the same numbers (1 == 1.0)
+    def typed(m, vols):
+        fs = files(vols, 0.3)
+        k = 0
+        for f in fs:
+            if f['vol'] != 'E' and f['vol'] >= 1:
+                f['typed'] = 'AB'[k % 2]
+                k += 1
+        return {'m': m, 'files': fs}
+    out.append(typed(1, [9, 10, 'E', 11, 1]))
+    out.append(typed(0, [10, 9, 1000, 11]))
+    for rec in out:
+        if rec['m'] in (0, 1) and not rec.get('history'):
+            k = 1
+            for f in rec['files']:
+                if f['vol'] != 'E' and f['vol'] >= 1 and 'typed' not in f:
+                    f['typed'] = 'AB'[k % 2]
+                    k += 1
+    # files whose only results store no values (existence-only searches)
+    mk = files([9, 11, 'E', 10, 1000], 0.5)
+    mk[0]['marks'] = True
+    mk[3]['marks'] = True
+    out.append({'m': 3, 'files': mk})
+    # two catalog paths for one file: a symlink inside the directory, the
+    # same path with a doubled separator
+    al = files([10, 11, 'E', 9], 0.5)
+    al.append({'vol': al[0]['vol'], 'seed': 0, 'seq': False, 'alias_of': 0})
+    al.append({'vol': al[1]['vol'], 'seed': 0, 'seq': False, 'alias_of': 1,
+               'alias_kind': 'spelling'})
+    out.append({'m': 2, 'files': al})
+    for k, rec in enumerate(out[:-1]):
+        if k % 4 == 3 and not rec.get('history'):
+            tg = [i for i, f in enumerate(rec['files'])
+                  if f['vol'] != 'E' and 'alias_of' not in f]
+            if tg:
+                t0 = tg[rng.randrange(len(tg))]
+                rec['files'].append({'vol': rec['files'][t0]['vol'],
+                                     'seed': 0, 'seq': False,
+                                     'alias_of': t0})
+    rng = rng0
     # strict decoding (the default) and a file with invalid UTF-8: the
     # multi-file run must fail like the search of that file alone does
     bad = files([10, 9, 11], 0)
@@ -513,6 +596,14 @@ def observable(chk):
             chk.dist('obs_file_crossing_NUM_BUFFERED_RESULTS')
         if any(e['sections'] for e in res['paths']):
             chk.dist('obs_runs_with_sequence_sections')
+        if any('alias_of' in f for f in r['files']):
+            chk.dist('obs_runs_with_aliased_paths')
+        if any(f.get('marks') for f in r['files']):
+            chk.dist('obs_runs_with_value_less_results_only_files')
+        if r['m'] in (0, 1) and \
+                sum(1 for e in res['paths'] if e.get('float_values')) and \
+                any(f.get('typed') == 'A' for f in r['files']):
+            chk.dist('obs_one_worker_runs_with_equal_int_and_float_values')
         if any(e.get('falsy_values') for e in res['paths']):
             chk.dist('obs_runs_with_falsy_values')
             chk.dist('obs_falsy_values_compared',
